@@ -188,7 +188,7 @@ func genC07(seed int64, tier string, emit func(run.Case)) {
 	r := gen.New(seed)
 	id := 0
 	isoBudget := map[string]int{}
-	isoMax := tierN(tier, 3, 12)
+	isoMax := tierN(tier, 2, 12)
 	add := func(text string, files map[string]string, src string, u16 bool) {
 		id++
 		in := c07In{Text: text, Files: files, Src: src, U16: u16}
@@ -247,7 +247,7 @@ func genC07(seed int64, tier string, emit func(run.Case)) {
 		}
 	}
 	// 4. random programs
-	n := tierN(tier, 7000, 250000)
+	n := tierN(tier, 6000, 250000)
 	syn := gen.ProfileSyntax
 	for i := 0; i < n; i++ {
 		q := r.Sub(i)
@@ -570,7 +570,7 @@ func c07Isolated(c run.Case, in c07In) (res run.Result) {
 		return
 	}
 	self, _ := os.Executable()
-	const cpuLimit = 8
+	const cpuLimit = 6
 	ctx, cancel := context.WithTimeout(context.Background(), 300*time.Second)
 	defer cancel()
 	cmd := exec.CommandContext(ctx, "/bin/sh", "-c", fmt.Sprintf("ulimit -t %d; exec \"$0\" replay C07 \"$1\"", cpuLimit), self, p)
